@@ -56,6 +56,19 @@ fn consistency(s: &Snap, out: &mut Out, when: &str) {
     }
 }
 
+/// Coins leaving the two pools because a batch was closed inside this transaction (the shipped hub closes batches
+/// inside unbonds only; which message does it is not fixed by the properties): per pool, the requests valued at the
+/// rates recorded in the new history entries.
+pub fn closed_in_step(pre: &Snap, post: &Snap) -> (u128, u128) {
+    let mut b = 0u128;
+    let mut s = 0u128;
+    for h in post.history.iter().filter(|h| pre.hist(h.batch_id).is_none()) {
+        b += mul_rate(h.bsei_amount, h.bsei_applied);
+        s += mul_rate(h.stsei_amount, h.stsei_applied);
+    }
+    (b, s)
+}
+
 impl Monitor for C03 {
     fn on_step(&mut self, c: &Ctx, _rng: &mut Rng, out: &mut Out) {
         consistency(c.post, out, &format!("after step {} ({})", c.step, c.op.kind()));
@@ -64,6 +77,8 @@ impl Monitor for C03 {
         }
         let tr = c.res.trace();
         let (pre, post) = (c.pre, c.post);
+        // (cb, cs): what a batch closed in this very transaction took out of the pools
+        let (cb, cs) = if matches!(c.op, Op::Unbond { .. }) { (0, 0) } else { closed_in_step(pre, post) };
         match c.op {
             Op::Bond { user, amount } => {
                 let minted = post.bsei.supply - pre.bsei.supply;
@@ -81,7 +96,7 @@ impl Monitor for C03 {
                 if minted == 0 {
                     out.count("c03.operations_issuing_nothing");
                 }
-                if post.raw_pool_b != pre.pool_b + amount || post.raw_pool_s != pre.pool_s {
+                if post.raw_pool_b + cb != pre.pool_b + amount || post.raw_pool_s + cs != pre.pool_s {
                     out.violation(P, "bond_pool", format!("bond of {}: pools ({},{}) -> ({},{})", amount, pre.pool_b, pre.pool_s, post.raw_pool_b, post.raw_pool_s));
                 }
                 out.count(if minted < m0 { "c03.mints_with_fee" } else { "c03.mints_without_fee" });
@@ -94,7 +109,7 @@ impl Monitor for C03 {
                 if minted != m0 || got != m0 {
                     out.violation(P, "bond_mint", format!("stSei bond of {} at rate {}: minted {} (recipient +{}), expected {}", amount, pre.rs, minted, got, m0));
                 }
-                if post.raw_pool_s != pre.pool_s + amount || post.raw_pool_b != pre.pool_b {
+                if post.raw_pool_s + cs != pre.pool_s + amount || post.raw_pool_b + cb != pre.pool_b {
                     out.violation(P, "bond_pool", format!("stSei bond of {}: pools ({},{}) -> ({},{})", amount, pre.pool_b, pre.pool_s, post.raw_pool_b, post.raw_pool_s));
                 }
                 out.count("c03.mints_without_fee");
@@ -115,7 +130,7 @@ impl Monitor for C03 {
                 if minted != got || minted > m0 || minted + cap + ((cap > 0) as u128) < m0 {
                     out.violation(P, "convert", format!("convert stSei->bSei of {}: value {} at rates ({},{}) should mint {} (fee cap {}), minted {} (recipient +{})", amount, equiv, pre.rs, pre.rb, m0, cap, minted, got));
                 }
-                if post.raw_pool_b != pre.pool_b + equiv || post.raw_pool_s + equiv != pre.pool_s {
+                if post.raw_pool_b + cb != pre.pool_b + equiv || post.raw_pool_s + cs + equiv != pre.pool_s {
                     out.violation(P, "convert_pool", format!("convert stSei->bSei: value {} but pools ({},{}) -> ({},{})", equiv, pre.pool_b, pre.pool_s, post.raw_pool_b, post.raw_pool_s));
                 }
                 out.count("c03.converts_stsei_to_bsei");
@@ -126,7 +141,7 @@ impl Monitor for C03 {
                 let nofee_equiv = mul_rate(*amount, pre.rb);
                 let cap = if below_threshold(pre) { prop_cap(*amount, pre) } else { 0 };
                 let min_equiv = mul_rate(*amount - cap.min(*amount), pre.rb);
-                let equiv = pre.pool_b.saturating_sub(post.raw_pool_b);
+                let equiv = pre.pool_b.saturating_sub(post.raw_pool_b + cb);
                 let minted = post.stsei.supply - pre.stsei.supply;
                 let got = post.stsei.balances.get(user).cloned().unwrap_or(0) - pre.stsei.balances.get(user).cloned().unwrap_or(0);
                 let burnt = pre.bsei.supply - post.bsei.supply;
@@ -140,7 +155,7 @@ impl Monitor for C03 {
                 if minted != m || got != m {
                     out.violation(P, "convert", format!("convert bSei->stSei: value {} at stSei rate {} should mint {}, minted {} (recipient +{})", equiv, pre.rs, m, minted, got));
                 }
-                if post.raw_pool_s != pre.pool_s + equiv {
+                if post.raw_pool_s + cs != pre.pool_s + equiv {
                     out.violation(P, "convert_pool", format!("convert bSei->stSei: value {} but stSei pool {} -> {}", equiv, pre.pool_s, post.raw_pool_s));
                 }
                 out.count("c03.converts_bsei_to_stsei");
@@ -168,7 +183,20 @@ impl Monitor for C03 {
                     let exp_rb = if pre.pool_b == 0 { 0 } else { exp_rb };
                     let exp_rs = if pre.pool_s == 0 { 0 } else { exp_rs };
                     let expected = mul_rate(h.bsei_amount, exp_rb) + mul_rate(h.stsei_amount, exp_rs);
-                    if und != expected {
+                    // accepted readings of "undelegated for floor(requests x rate) coins": (i) the triggering request is
+                    // part of the batch and each token type is floored (shipped order) or the batch is floored once
+                    // (at most one coin more); (ii) the batch is closed first, at the rates reported before this
+                    // transaction, and the triggering request opens the next batch
+                    let once = {
+                        let x = cosmwasm_std::Uint256::from(h.bsei_amount) * cosmwasm_std::Uint256::from(exp_rb) + cosmwasm_std::Uint256::from(h.stsei_amount) * cosmwasm_std::Uint256::from(exp_rs);
+                        (x / cosmwasm_std::Uint256::from(E18)).to_string().parse::<u128>().unwrap_or(u128::MAX)
+                    };
+                    let pre_rb = if pre.pool_b == 0 { 0 } else { pre.rb };
+                    let pre_rs = if pre.pool_s == 0 { 0 } else { pre.rs };
+                    let close_first = mul_rate(h.bsei_amount, pre_rb) + mul_rate(h.stsei_amount, pre_rs);
+                    let ok_shipped = und >= expected && und <= once;
+                    let ok_close_first = und == close_first;
+                    if !ok_shipped && !ok_close_first {
                         out.violation(
                             P,
                             "undelegation",
@@ -181,7 +209,7 @@ impl Monitor for C03 {
                     out.count("c03.undelegating_unbonds");
                     out.distinct(&("undelegate", rate_class(exp_rb), rate_class(exp_rs), decade(und), h.bsei_amount > 0, h.stsei_amount > 0));
                 } else if und != 0 {
-                    out.violation(P, "undelegation", format!("{} undelegated although the batch stayed open", und));
+                    out.violation(P, "undelegation", format!("{} undelegated although no batch was closed", und));
                 }
             }
             _ => {}
